@@ -26,7 +26,7 @@
      effective_hash_type forkid hto = hash_type or SIGHASH_ALL, OR-ed with SIGHASH_FORKID on fork-id coins;
      run passes st = Solver.sign applied once per pass (each pass has its own lookup table and hash type);
      ncovered ks passes = the number of listed keys supplied to at least one pass. *)
-From PV Require Import Base.Bytes Base.Outcome Gen.GenSolveC05 Spec.Templates Model.Solve Proofs.SolveP.
+From PV Require Import Base.Bytes Base.Outcome Gen.GenSolveC05 Spec.Templates Model.Solve Proofs.SolveP Proofs.SolveToyC05.
 Local Open Scope N_scope.
 
 Section C05.
@@ -37,10 +37,10 @@ Variable sign : bytes -> bytes -> bytes.                      (* secret, digest 
 Variable pub_of : bytes -> bool -> bytes.                     (* secret, compressed -> SEC key *)
 Variable sighash : bool -> N -> bytes -> option bytes.        (* witness v0?, hash type, script code -> digest *)
 
-(* the abstract ECDSA interface (property C01 / C10 are about the real thing) *)
+(* the abstract ECDSA interface (property C01 / C10 are about the real thing); that sign's output is accepted by
+   the lax parser of parse_signature_blob is PROVED from its strict encoding (strict_der_parses) *)
 Hypothesis sign_verifies : forall se c d, verifies (pub_of se c) d (sign se d) = true.
 Hypothesis sign_canonical : forall se d t, strict_der (sign se d ++ [t]) = true /\ low_s (sign se d ++ [t]) = true.
-Hypothesis sign_parses : forall se d t, parse_sig_ok (sign se d ++ [t]) = true.
 Hypothesis sha256_len : forall x, length (sha256 x) = 32%nat.
 Hypothesis hash160_len : forall x, length (hash160 x) = 20%nat.
 Hypothesis pub_wellformed : forall se, is_compressed (pub_of se true) = true /\ is_uncompressed (pub_of se false) = true.
@@ -59,7 +59,7 @@ Theorem C05_template_validates_multisig :
   (forall k, In k ks -> pub_enc_ok fl (kwit kd) (pub pub_of k) = true) ->
   exists st, sign_input hash160 sha256 verifies sign pub_of sighash db p2sh forkid (pz_ms pub_of kd m ks) hto [] [] = Ret st /\
              eval_input hash160 sha256 verifies sighash fl (pz_ms pub_of kd m ks) (fst st) (snd st) = true.
-Proof. exact (ms_validates hash160 sha256 verifies sign pub_of sighash sign_verifies sign_canonical sign_parses sha256_len). Qed.
+Proof. exact (ms_validates_c hash160 sha256 verifies sign pub_of sighash sign_verifies sign_canonical sha256_len). Qed.
 
 (* P2PK, P2PKH, P2WPKH, P2SH-P2WPKH *)
 Theorem C05_template_validates_single_key :
@@ -74,7 +74,7 @@ Theorem C05_template_validates_single_key :
   exists st, sign_input hash160 sha256 verifies sign pub_of sighash db p2sh forkid (pz_single hash160 pub_of kd k) hto [] [] = Ret st /\
              eval_input hash160 sha256 verifies sighash fl (pz_single hash160 pub_of kd k) (fst st) (snd st) = true.
 Proof.
-  exact (single_validates hash160 sha256 verifies sign pub_of sighash sign_verifies sign_canonical sign_parses hash160_len
+  exact (single_validates_c hash160 sha256 verifies sign pub_of sighash sign_verifies sign_canonical hash160_len
            pub_wellformed).
 Qed.
 
@@ -109,7 +109,7 @@ Theorem C05_partial_signing_order_free :
              (eval_input hash160 sha256 verifies sighash fl0 (pz_ms pub_of kd m ks) (fst st) (snd st) = true <->
               (m <= ncovered hash160 pub_of ks passes)%nat).
 Proof.
-  exact (partial_signing_order_free hash160 sha256 verifies sign pub_of sighash sign_verifies sign_canonical sign_parses
+  exact (partial_signing_order_free_c hash160 sha256 verifies sign pub_of sighash sign_verifies sign_canonical
            sha256_len).
 Qed.
 End C05.
@@ -143,6 +143,28 @@ Theorem C05_sign_never_raises :
   (forall wit sc, sighash wit (effective_hash_type forkid hto) sc <> None) ->
   exists st, sign_input hash160 sha256 verifies sign pub_of sighash db p2sh forkid pz hto ss w = Ret st.
 Proof. exact sign_input_no_crash. Qed.
+
+(* ---- non-vacuity: a toy instance of the abstract interface (Proofs/SolveToyC05.v) ------------------------------ *)
+(* the interface hypotheses of Section C05 are jointly satisfiable *)
+Example C05_interface_hypotheses_satisfiable : toy_interface.
+Proof. exact toy_interface_holds. Qed.
+(* so are the hypotheses of the validity theorems (2-of-3 P2SH-P2WSH, all keys in the table, SINGLE|ANYONECANPAY) *)
+Example C05_validates_hypotheses_satisfiable : toy_validates_hypotheses.
+Proof. exact toy_validates_hypotheses_hold. Qed.
+(* and those of the partial-signing theorem (exclusivity, placeholder, two passes with different hash types) *)
+Example C05_partial_signing_hypotheses_satisfiable : forall fl, toy_partial_hypotheses fl.
+Proof. exact toy_partial_hypotheses_hold. Qed.
+(* the model and the evaluator computed inside Coq on that instance: not valid after no / one pass, valid under the
+   standard flag set after both passes in either order, the same bytes whatever the order, 1 resp. 2 keys covered *)
+Example C05_model_runs_on_toy_instance :
+  toy_valid (STD false) (toy_run []) = false /\
+  toy_valid (STD false) (toy_run [toy_pass1]) = false /\ toy_valid LAX (toy_run [toy_pass1]) = false /\
+  toy_valid (STD false) (toy_run [toy_pass2]) = false /\
+  toy_valid (STD false) (toy_run [toy_pass1; toy_pass2]) = true /\
+  toy_valid (STD false) (toy_run [toy_pass2; toy_pass1]) = true /\
+  toy_run [toy_pass1; toy_pass2] = toy_run [toy_pass2; toy_pass1; toy_pass1] /\
+  ncovered t_hash160 t_pub_of toy_ks [toy_pass1] = 1%nat /\ ncovered t_hash160 t_pub_of toy_ks [toy_pass1; toy_pass2] = 2%nat.
+Proof. exact toy_runs. Qed.
 
 (* ---- the regenerated constants (placeholder, opcodes, flag values, 520 / 10 000 / 1000 limits, fork-id coins) --- *)
 Theorem C05_generated_constants : gen_c05_consts_ok = true.
